@@ -271,6 +271,16 @@ func (c *Ctx) c07Index(b BK) {
 							okIdx = false
 						}
 					}
+					// hash & (N-1) is hash % N for every uint64 when N is a power of two
+					if !okIdx && idx != nil && idx.Kind == pw.KArith && idx.Op == token.AND && n > 0 && n&(n-1) == 0 {
+						for _, pr := range [][2]*pw.Val{{idx.Src, idx.Src2}, {idx.Src2, idx.Src}} {
+							if pr[0] == ev.Key && pr[1] != nil && pr[1].Const != nil {
+								if v, exact := constant.Int64Val(pr[1].Const); exact && v == n-1 {
+									okIdx = true
+								}
+							}
+						}
+					}
 					if !okIdx {
 						r.Bad("R07.1", op, "shard-selection", c.Pos(ev.Pos), fmt.Sprintf("shard is not selected as hash %% %d of the very hash used as map key (index %v, key %v)", n, idx, ev.Key), shortTrace(p))
 						bad = true
